@@ -26,26 +26,16 @@ def _obs(record):
     return {"kind": int(m.group(1)), "idle": [int(x) for x in m.group(4).split()]}
 
 
-def _pred_idles(expected_text):
-    # expected = (run_case true c, run_case false c): the first p_idle is the specification's, the second goja-as-is
-    return [[int(x) for x in re.findall(r"\d+", s)] for s in re.findall(r"p_idle := \[([^\]]*)\]", expected_text or "")]
-
-
-def _known_shape(case, record, expected_text, want_node, want_leak):
-    # only the stored strict replays are compared with the specification alone; generated cases inside the
-    # region are compared with the as-is model inside Coq, so a mismatch there is never this finding
-    if not case.get("strict"):
-        return False
+def p_genret(case, record, expected_text):
     o = _obs(record)
-    idles = _pred_idles(expected_text)
-    if o is None or o["kind"] != 1 or len(idles) < 2:
-        return False
-    return _has(case, want_node) and want_leak(o["idle"]) and idles[0] == [0, 0, 0, 0, 0] and idles[1] == o["idle"]
+    return (o is not None and o["kind"] == 1 and _has(case, lambda n: n.get("t") == "genret")
+            and o["idle"][0] >= 3 and o["idle"][1] >= 2 and o["idle"][4] == 1)
 
 
-def p_gen_async(case, record, expected_text):
-    return _known_shape(case, record, expected_text, lambda n: n.get("t") in ("gen", "async"),
-                        lambda idle: idle[1] > 0 and (idle[0] > 0 or idle[4] == 0))
+def p_join(case, record, expected_text):
+    o = _obs(record)
+    return (o is not None and o["kind"] in (0, 2) and _has(case, lambda n: n.get("t") == "nat" and n.get("k") == "gojoin")
+            and o["idle"][:3] == [0, 0, 0] and o["idle"][4] == 1)
 
 
 def async_stage(ctx):
@@ -106,7 +96,8 @@ CFG = {
     "stages": [vcheck.correspondence, async_stage],
     "rule": ("generated control trees (events, probes, throw, loops, try/catch/finally, JS calls, sort/forEach/getter callbacks, "
              "Go->JS Callable and nested RunString with propagated or swallowed error, for-of over script iterators with/without "
-             "return(), generator resumptions, async functions, promise jobs; depth <= 4), run through RunString or a Callable; "
+             "return(), generator resumptions incl. return() through finally, async functions, promise jobs, host functions "
+             "returning the callback's error wrapped with %w / errors.Join; depth <= 4; 12% of programs under an active profiler), run through RunString or a Callable; "
              "for each program the undisturbed run, Interrupt(token_k) from the k-th probe() call for every k (stride <= 3 when "
              "> 14 probes), a quarter of them also with ClearInterrupt right after, Interrupt while idle with/without "
              "ClearInterrupt; compared: error kind + InterruptedError.Value(), the complete event log, VerifIdle "
@@ -114,7 +105,7 @@ CFG = {
              "non-trivial = the call returned an InterruptedError; distinct = by hash of the case"),
     "theorem_names": ["interrupt_prompt", "interrupt_prompt_every_level", "interrupt_prompt_total", "interrupt_prompt_sync",
                       "interrupt_runs_no_handler", "idle_interrupt_next_call", "idle_interrupt_cleared", "no_race_flag",
-                      "interrupt_clean (guard: fixed = true or no generator/async resumption)", "interrupt_clean_refuted (F16)"],
+                      "interrupt_clean"],
     "allowed_axioms": [],
     "trusted_base": [
         "Coq 8.16.1 kernel + vm_compute; all theorems closed under the global context (no axioms)",
@@ -128,11 +119,13 @@ CFG = {
         "promptness is counted in abstract instructions of the model and, on the implementation, as log/probe events after "
         "the Interrupt (no per-VM-instruction counter hook was added); never wall time",
         "sequentially consistent traces + Go sync/atomic and sync.Mutex synchronisation edges for the interleaving model",
-        "interrupt_clean is proved for every program outside generator/async resumptions (and for all programs of the "
-        "specification); inside that region it is refuted on the tree (F16) and compared with the as-is model",
+        "interrupt_clean is proved for every program of the model; the two open deviations of the code (C15-N1 generator "
+        "return() through finally, C15-N2 errors.Join-wrapped interrupt) are not represented in the model: such cases are "
+        "compared with the specification and classified by narrow predicates",
     ],
     "predicates": {
-        "C15.interrupt_inside_generator_or_async_resumption": p_gen_async,
+        "C15.interrupt_in_finally_run_by_generator_return": p_genret,
+        "C15.joined_interrupt_error_from_host_function": p_join,
     },
     "manifest": {
         "text": ("proof (partial): over a Gallina transcription of the run loop, handleThrow and the frame discipline of every "
@@ -141,7 +134,7 @@ CFG = {
                  "interrupts), an uncatchable payload reaches no catch/finally for every try stack, an idle interrupt aborts the "
                  "next call at its first instruction and leaves the runtime idle, and every interleaving of Interrupt calls with "
                  "run-loop polls is race-free on interruptVal by lock order. interrupt_clean (stacks idle, jobs dropped, flag cleared after every call) is "
-                 "proved for every program outside generator/async resumptions; inside it is refuted on the tree (F16). "
+                 "proved for every program, without guard (F16/F20 repaired); open on the tree: C15-N1, C15-N2. "
                  "Missing: Go-level data-race freedom beyond the protocol (race detector on executed "
                  "schedules only). Tie: 1500/100000 generated cases with an interrupt at every probe position compare error, "
                  "token, full event log, VerifIdle and a follow-up run with the model; 200/5000 asynchronous interrupts under -race."),
